@@ -354,6 +354,8 @@ def _roots(fn, expr, defs, out, seen):
 
 def run(ctx):
     """R07.5: only the tool's standard output becomes merged text."""
+    ctx.rule('R07.6', 'concurrently inserted cells are paired by consistent cursors: in every arm of the splitter `taken` advances by the local and `offset` by (remote - local) items '
+             '(a slip pairs a local cell with the wrong remote cell and the right one is referenced by no decision: its lines vanish)', floor=4)
     ctx.rule('R07.5', 'the external text merge takes the merged text from the tool\'s stdout only: stderr is not redirected into it', floor=1)
     _run_base(ctx)
     repo = ctx.repo
@@ -377,3 +379,6 @@ def run(ctx):
         ctx.inst('R07.5', 'nbdime.prettyprint:external_merge_render', repo.norm(c), ok,
                  'diagnostics of git/diff3 stay out of the merged source' if ok else
                  'whatever the tool prints on stderr (warnings, traces, "Cannot merge binary files") becomes lines of the merged cell source: text no side wrote', c)
+
+    from .c09 import split_addrange_algebra
+    split_addrange_algebra(ctx, 'R07.6')
